@@ -17,7 +17,9 @@ def run(ck, rng):
     for _ in range(n_ok):
         items = gen_forest(rng, pool=rng.choice(["mixed", "hostile_fmt", "fs_hostile"]))
         docs.append(spell(items, gen_spelling(rng, items)))
-    docs += malformed_stream(rng, n_bad) + long_line_docs()[:8]
+    # the scanner limit is part of the accept/reject decision: rows just below, at and well above 64 KiB
+    docs += malformed_stream(rng, n_bad) + long_line_docs()
+    docs += [b"- a\n  - " + b"z" * n + b"\n- b\n" for n in (70000, 200000)] + [b"- r\n" + b" " * 100000]
     dcases, wcases = [], []
     for doc in docs:
         mode = rng.choice(["d 0", "d 0", "j 0", "d 1"])
